@@ -218,3 +218,38 @@ theorem smul_left_injective_field {v : G} (hv : v ≠ 0) {a b : F} (h : a • v 
 
 end
 end Mps.Alg
+
+namespace Mps.Alg
+
+/-! ### chain keys (core-only facts) -/
+
+theorem ridXor_right_comm (z x y : Bytes) : ridXor (ridXor z x) y = ridXor (ridXor z y) x := by
+  unfold ridXor
+  induction z generalizing x y with
+  | nil => simp
+  | cons a z ih =>
+    cases x with
+    | nil => cases y <;> simp
+    | cons b x =>
+      cases y with
+      | nil => simp
+      | cons c y =>
+        simp only [List.zipWith_cons_cons, List.cons.injEq]
+        exact ⟨by rw [UInt8.xor_assoc, UInt8.xor_comm b c, ← UInt8.xor_assoc], ih x y⟩
+
+theorem chainKeyOf_perm (cs ds : List Bytes) (h : cs.Perm ds) : chainKeyOf cs = chainKeyOf ds := by
+  unfold chainKeyOf
+  exact List.Perm.foldl_eq' h (fun x _ y _ z => ridXor_right_comm z x y) _
+
+theorem chainKeyOf_length (cs : List Bytes) (h : ∀ c ∈ cs, c.length = 32) : (chainKeyOf cs).length = 32 := by
+  unfold chainKeyOf
+  suffices ∀ (acc : Bytes), acc.length = 32 → (cs.foldl ridXor acc).length = 32 from this _ (by simp)
+  induction cs with
+  | nil => intro acc ha; simpa using ha
+  | cons c cs ih =>
+    intro acc ha
+    rw [List.foldl_cons]
+    refine ih (fun d hd => h d (by simp [hd])) _ ?_
+    simp [ridXor, ha, h c (by simp)]
+
+end Mps.Alg
